@@ -4,3 +4,9 @@
 #![allow(missing_docs, clippy::unwrap_used, missing_debug_implementations, unreachable_pub)]
 
 pub use iroh_base::verif_hooks as sched;
+pub mod c09;
+pub mod c06;
+pub mod c15;
+pub mod c10;
+pub mod c03;
+pub mod c08;
